@@ -218,7 +218,7 @@ impl Property for C02 {
         vec!["walks", "trees_with_links", "pruned_links", "shape_plain", "shape_prefixed", "shape_rooted", "shape_dots", "pruned_directories", "walk_root_expected", "base_noncanonical", "component_program_checks"]
     }
     fn decode(&self, t: &mut Tape) -> Case {
-        let tree = gen_tree(t, &TreeCfg { links: true, ..TreeCfg::default() });
+        let tree = gen_tree(t, &TreeCfg { links: true, non_utf8: true, ..TreeCfg::default() });
         let base = gen_base(t, &tree);
         let shape = gen_shape(t, &tree, &base);
         let glob = gen_expr(t, &fs_glob_cfg(&tree));
